@@ -9,8 +9,20 @@ package rule
 // C13: Build / ToCommandLine never panic. A Rule whose dynamic value is a typed
 // nil pointer is outside "all Rule structs" (recorded as a precondition).
 //
+//@ spec listOK(l string, f int) bool := (l == "exit" && f == exitFilter) || (l == "task" && f == taskFilter) || (l == "user" && f == userFilter) || (l == "exclude" && f == excludeFilter)
+//@ spec actionOK(a string, c int) bool := (a == "always" && c == alwaysAction) || (a == "never" && c == neverAction)
 //@ func rule.Build
 //@ requires payload(rule) != 0
+// C06: the header of the wire form carries the list and action codes of the
+// names used, the number of triples collected, and is padded; the per-triple
+// and buffer facts are the postconditions of addFilter, addInterFieldComparator,
+// addSyscall, toAuditRuleData and toWireFormat, which Build calls in order.
+//@ witness[C06] isNil(result1) ==> len(result0) % 4 == 0 && len(result0) >= 1040 && le32(result0, 0) == data.flags && le32(result0, 4) == data.action && le32(result0, 8) == len(data.fields) && len(data.fields) <= 64
+//@ witness[C06] isNil(result1) ==> le32(result0, 1036) + 1040 <= len(result0) && len(result0) < le32(result0, 1036) + 1044
+//@ witness[C06] isNil(result1) && typeIs(rule, *SyscallRule) ==> listOK(ptr(SyscallRule, payload(rule)).List, le32(result0, 0)) && actionOK(ptr(SyscallRule, payload(rule)).Action, le32(result0, 4))
+//@ witness[C06] isNil(result1) && typeIs(rule, *FileWatchRule) ==> le32(result0, 0) == exitFilter && le32(result0, 4) == alwaysAction && le32(result0, 12) == 4294967295 && le32(result0, 264) == 65535
+//@ loop 0 invariant rdOK(data) && listOK(ptr(SyscallRule, payload(rule)).List, data.flags) && actionOK(ptr(SyscallRule, payload(rule)).Action, data.action)
+//@ loop 1 invariant rdOK(data) && listOK(ptr(SyscallRule, payload(rule)).List, data.flags) && actionOK(ptr(SyscallRule, payload(rule)).Action, data.action)
 //
 // The first loop of ToCommandLine records, per field id, an index into
 // r.fields; later code uses those indices on r.values.
@@ -48,6 +60,7 @@ package rule
 // header, zero padding to a multiple of 4.
 //
 //@ func (rule.auditRuleData).toWireFormat
+//@ modifies alloc
 //@ requires len(r.Buf) <= 1073741824
 //@ ensures[C06] len(result) % 4 == 0 && 1040 + len(r.Buf) <= len(result) && len(result) < 1040 + len(r.Buf) + 4
 //@ ensures[C06] le32(result, 0) == r.Flags && le32(result, 4) == r.Action && le32(result, 8) == r.FieldCount && le32(result, 1036) == r.BufLen
@@ -59,31 +72,124 @@ package rule
 //@ ensures[C06] forall j int :: 1040 + len(r.Buf) <= j && j < len(result) ==> result[j] == 0
 
 // The in-memory struct: what toAuditRuleData builds from the collected rule.
-// maskWord(s, k, w): word w of the syscall bitmask after the first k syscalls.
+// (In recursive specification functions a slice parameter is its backing array
+// addressed by absolute position: element k of x is at(x, lo(x)+k).)
+// maskWord(s, b, k, w): word w of the syscall bitmask after the first k syscalls.
 // catLen / catByte: length and bytes of the first k strings put back to back.
-//@ rec maskWord(s []uint32, k int, w int) int :=
-//@   if k <= 0 then 0 else (if s[k-1] / 32 == w then bitor32(maskWord(s, k - 1, w), pow2(s[k-1] % 32)) else maskWord(s, k - 1, w))
-//@ rec catLen(s []string, k int) int :=
-//@   if k <= 0 then 0 else catLen(s, k - 1) + len(s[k-1])
-//@ rec catByte(s []string, k int, p int) int :=
-//@   if k <= 0 then 0 else (if p >= catLen(s, k - 1) then s[k-1][p - catLen(s, k - 1)] else catByte(s, k - 1, p))
+//@ rec unfold maskWord(s []uint32, b int, k int, w int) int :=
+//@   if k <= 0 then 0 else (if at(s, b + k - 1) / 32 == w then bitor32(maskWord(s, b, k - 1, w), pow2(at(s, b + k - 1) % 32)) else maskWord(s, b, k - 1, w))
+//@ rec unfold catLen(s []string, b int, k int) int :=
+//@   if k <= 0 then 0 else catLen(s, b, k - 1) + len(at(s, b + k - 1))
+//@ rec unfold catByte(s []string, b int, k int, p int) int :=
+//@   if k <= 0 then 0 else (if p >= catLen(s, b, k - 1) then at(s, b + k - 1)[p - catLen(s, b, k - 1)] else catByte(s, b, k - 1, p))
 //
 //@ func (rule.ruleData).toAuditRuleData
+//@ modifies alloc
 //@ requires len(r.fields) == len(r.values) && len(r.fields) == len(r.fieldFlags)
-//@ requires len(r.strings) <= 64 && (forall k int :: 0 <= k && k < len(r.strings) ==> len(r.strings[k]) <= 4096)
+//@ requires len(r.strings) <= len(r.fields) && (forall j int :: lo(r.strings) <= j && j < hi(r.strings) ==> len(at(r.strings, j)) <= 4096)
 //@ ensures[C06] isNil(result1) ==> result0 != nil && len(r.fields) <= 64
 //@ ensures[C06] isNil(result1) ==> result0.Flags == r.flags && result0.Action == r.action && result0.FieldCount == len(r.fields)
 //@ ensures[C06] isNil(result1) ==> forall i int :: 0 <= i && i < len(r.fields) ==> result0.Fields[i] == r.fields[i] && result0.Values[i] == r.values[i] && result0.FieldFlags[i] == r.fieldFlags[i]
 //@ ensures[C06] isNil(result1) ==> forall i int :: len(r.fields) <= i && i < 64 ==> result0.Fields[i] == 0 && result0.Values[i] == 0 && result0.FieldFlags[i] == 0
 //@ ensures[C06] isNil(result1) && r.allSyscalls ==> (forall w int :: 0 <= w && w < 63 ==> result0.Mask[w] == 4294967295) && result0.Mask[63] == 65535
-//@ ensures[C06] isNil(result1) && !r.allSyscalls ==> forall w int :: 0 <= w && w < 64 ==> result0.Mask[w] == maskWord(r.syscalls, len(r.syscalls), w)
-//@ ensures[C06] isNil(result1) && !r.allSyscalls ==> forall k int :: 0 <= k && k < len(r.syscalls) ==> r.syscalls[k] < 2048
-//@ ensures[C06] isNil(result1) ==> len(result0.Buf) == catLen(r.strings, len(r.strings)) && result0.BufLen == len(result0.Buf)
-//@ ensures[C06] isNil(result1) ==> forall p int :: 0 <= p && p < len(result0.Buf) ==> result0.Buf[p] == catByte(r.strings, len(r.strings), p)
+//@ ensures[C06] isNil(result1) && !r.allSyscalls ==> forall w int :: 0 <= w && w < 64 ==> result0.Mask[w] == maskWord(r.syscalls, lo(r.syscalls), len(r.syscalls), w)
+//@ ensures[C06] isNil(result1) && !r.allSyscalls ==> forall j int :: lo(r.syscalls) <= j && j < hi(r.syscalls) ==> at(r.syscalls, j) < 2048
+//@ ensures[C06] isNil(result1) ==> len(result0.Buf) == catLen(r.strings, lo(r.strings), len(r.strings)) && result0.BufLen == len(result0.Buf)
+//@ ensures[C06] isNil(result1) ==> len(result0.Buf) <= 262144
+//@ ensures[C06] isNil(result1) ==> forall p int :: 0 <= p && p < len(result0.Buf) ==> result0.Buf[p] == catByte(r.strings, lo(r.strings), len(r.strings), p)
 //@ loop 0 invariant forall w int :: 0 <= w && w <= rangeindex ==> data.Mask[w] == 4294967295
-//@ loop 1 invariant forall w int :: 0 <= w && w < 64 ==> data.Mask[w] == maskWord(r.syscalls, rangeindex + 1, w)
-//@ loop 1 invariant forall k int :: 0 <= k && k <= rangeindex ==> r.syscalls[k] < 2048
+//@ loop 1 invariant forall w int :: 0 <= w && w < 64 ==> data.Mask[w] == maskWord(r.syscalls, lo(r.syscalls), rangeindex + 1, w)
+//@ loop 1 invariant forall j int :: lo(r.syscalls) <= j && j <= lo(r.syscalls) + rangeindex ==> at(r.syscalls, j) < 2048
 //@ loop 2 invariant forall i int :: 0 <= i && i <= rangeindex ==> data.Fields[i] == r.fields[i] && data.Values[i] == r.values[i] && data.FieldFlags[i] == r.fieldFlags[i]
 //@ loop 2 invariant forall i int :: rangeindex < i && i < 64 ==> data.Fields[i] == 0 && data.Values[i] == 0 && data.FieldFlags[i] == 0
-//@ loop 3 invariant lo(data.Buf) == 0 && len(data.Buf) == catLen(r.strings, rangeindex + 1) && len(data.Buf) <= 4096 * (rangeindex + 1)
-//@ loop 3 invariant forall p int :: 0 <= p && p < len(data.Buf) ==> at(data.Buf, p) == catByte(r.strings, rangeindex + 1, p)
+//@ loop 3 invariant lo(data.Buf) == 0
+//@ loop 3 invariant len(data.Buf) <= 4096 * (rangeindex + 1)
+//@ loop 3 invariant len(data.Buf) == catLen(r.strings, lo(r.strings), rangeindex + 1)
+//@ loop 3 invariant forall p int :: 0 <= p && p < len(data.Buf) ==> at(data.Buf, p) == catByte(r.strings, lo(r.strings), rangeindex + 1, p)
+
+// ---------------------------------------------------------------------------
+// C06: one field / operator / value triple per filter.
+//
+// Number parsing used for most values (base prefix allowed, 32 bits; a leading
+// '-' gives the two's complement).
+//@ func rule.parseNum
+//@ pure
+//@ ensures[C06] isNil(result1) && !(len(num) > 0 && num[0] == '-') ==> strIsNum(num, 0, false) && result0 == strUval(num, 0)
+//@ ensures[C06] isNil(result1) && len(num) > 0 && num[0] == '-' ==> strIsNum(num, 0, true) && (strIval(num, 0) >= 0 ==> result0 == strIval(num, 0)) && (strIval(num, 0) < 0 ==> result0 == strIval(num, 0) + 4294967296)
+//
+//@ spec isStringField(f int) bool := f == objectUserField || f == objectRoleField || f == objectTypeField || f == objectLevelLowField || f == objectLevelHighField || f == pathField || f == dirField || f == subjectUserField || f == subjectRoleField || f == subjectTypeField || f == subjectSensitivityField || f == subjectClearanceField || f == keyField || f == exeField
+//@ spec isPlainNumField(f int) bool := f == arg0Field || f == arg1Field || f == arg2Field || f == arg3Field || f == inodeField || f == devMajorField || f == devMinorField || f == successField || f == ppidField || f == pidField || f == persField
+//@ spec distinct4(a int, b int, c int, d int) bool := (a == 0 || (a != b && a != c && a != d)) && (b == 0 || (b != c && b != d)) && (c == 0 || c != d)
+//@ spec rdOK(d *ruleData) bool := d != nil && len(d.fields) == len(d.values) && len(d.fields) == len(d.fieldFlags) && len(d.strings) <= len(d.fields) && (forall j int :: lo(d.strings) <= j && j < hi(d.strings) ==> len(at(d.strings, j)) <= 4096) && distinct4(base(d.fields), base(d.values), base(d.fieldFlags), base(d.syscalls))
+//
+//@ func rule.addFilter
+//@ requires rdOK(rule)
+//@ modifies rule.fields, rule.values, rule.fieldFlags, rule.strings, rule.arch, elemsOf(field), elemsOf(uint32), elemsOf(operator), elemsOf(string), alloc
+//@ ensures[C06] rdOK(rule)
+//@ ensures[C06] rule.flags == old(rule.flags) && rule.action == old(rule.action) && rule.allSyscalls == old(rule.allSyscalls) && rule.syscalls == old(rule.syscalls)
+//@ ensures[C06] !isNil(result0) ==> len(rule.fields) == old(len(rule.fields)) && len(rule.strings) == old(len(rule.strings))
+//@ ensures[C06] isNil(result0) ==> len(rule.fields) == old(len(rule.fields)) + 1
+//@ ensures[C06] lo(rule.fields) == old(lo(rule.fields)) && lo(rule.values) == old(lo(rule.values)) && lo(rule.fieldFlags) == old(lo(rule.fieldFlags)) && lo(rule.strings) == old(lo(rule.strings))
+//@ ensures[C06] isNil(result0) ==> comparator in operatorsTable && at(rule.fieldFlags, hi(rule.fieldFlags) - 1) == operatorsTable[comparator]
+//@ ensures[C06] isNil(result0) ==> lhs in fieldsTable && at(rule.fields, hi(rule.fields) - 1) == fieldsTable[lhs]
+//@ ensures[C06] forall j int :: old(lo(rule.fields)) <= j && j < old(hi(rule.fields)) ==> at(rule.fields, j) == old(at(rule.fields, j))
+//@ ensures[C06] forall j int :: old(lo(rule.values)) <= j && j < old(hi(rule.values)) ==> at(rule.values, j) == old(at(rule.values, j))
+//@ ensures[C06] forall j int :: old(lo(rule.fieldFlags)) <= j && j < old(hi(rule.fieldFlags)) ==> at(rule.fieldFlags, j) == old(at(rule.fieldFlags, j))
+//@ ensures[C06] forall j int :: old(lo(rule.strings)) <= j && j < old(hi(rule.strings)) ==> at(rule.strings, j) == old(at(rule.strings, j))
+//@ ensures[C06] isNil(result0) && isStringField(fieldsTable[lhs]) ==> at(rule.values, hi(rule.values) - 1) == len(rhs) && len(rule.strings) == old(len(rule.strings)) + 1 && at(rule.strings, hi(rule.strings) - 1) == rhs
+//@ ensures[C06] isNil(result0) && !isStringField(fieldsTable[lhs]) ==> len(rule.strings) == old(len(rule.strings))
+//@ ensures[C06] isNil(result0) && isPlainNumField(fieldsTable[lhs]) && !(len(rhs) > 0 && rhs[0] == '-') ==> at(rule.values, hi(rule.values) - 1) == strUval(rhs, 0)
+
+// -C: an inter-field comparison is the pseudo field AUDIT_FIELD_COMPARE with the
+// code of the (symmetric) pair as its value.
+//@ func rule.addInterFieldComparator
+//@ requires rdOK(rule)
+//@ modifies rule.fields, rule.values, rule.fieldFlags, elemsOf(uint32), alloc
+//@ ensures[C06] rdOK(rule)
+//@ ensures[C06] !isNil(result0) ==> len(rule.fields) == old(len(rule.fields))
+//@ ensures[C06] isNil(result0) ==> len(rule.fields) == old(len(rule.fields)) + 1
+//@ ensures[C06] lo(rule.fields) == old(lo(rule.fields)) && lo(rule.values) == old(lo(rule.values)) && lo(rule.fieldFlags) == old(lo(rule.fieldFlags))
+//@ ensures[C06] isNil(result0) ==> at(rule.fields, hi(rule.fields) - 1) == fieldCompare
+//@ ensures[C06] isNil(result0) ==> comparator in operatorsTable && at(rule.fieldFlags, hi(rule.fieldFlags) - 1) == operatorsTable[comparator] && (operatorsTable[comparator] == equalOperator || operatorsTable[comparator] == notEqualOperator)
+//@ ensures[C06] isNil(result0) ==> lhs in fieldsTable && rhs in fieldsTable && fieldsTable[lhs] in comparisonsTable && fieldsTable[rhs] in comparisonsTable[fieldsTable[lhs]] && at(rule.values, hi(rule.values) - 1) == comparisonsTable[fieldsTable[lhs]][fieldsTable[rhs]]
+//@ ensures[C06] forall j int :: old(lo(rule.fields)) <= j && j < old(hi(rule.fields)) ==> at(rule.fields, j) == old(at(rule.fields, j))
+//@ ensures[C06] forall j int :: old(lo(rule.values)) <= j && j < old(hi(rule.values)) ==> at(rule.values, j) == old(at(rule.values, j))
+//@ ensures[C06] forall j int :: old(lo(rule.fieldFlags)) <= j && j < old(hi(rule.fieldFlags)) ==> at(rule.fieldFlags, j) == old(at(rule.fieldFlags, j))
+//
+// list and action codes.
+//@ func (*rule.ruleData).setList
+//@ modifies r.flags
+//@ ensures[C06] isNil(result0) ==> (list == "exit" && r.flags == exitFilter) || (list == "task" && r.flags == taskFilter) || (list == "user" && r.flags == userFilter) || (list == "exclude" && r.flags == excludeFilter)
+//@ ensures[C06] !isNil(result0) ==> r.flags == old(r.flags)
+//@ func (*rule.ruleData).setAction
+//@ modifies r.action
+//@ ensures[C06] isNil(result0) ==> (action == "always" && r.action == alwaysAction) || (action == "never" && r.action == neverAction)
+//@ ensures[C06] !isNil(result0) ==> r.action == old(r.action)
+//
+// -S: "all", a number, or a name looked up in the table of the rule's arch.
+//@ func rule.addSyscall
+//@ requires rdOK(rule)
+//@ modifies rule.allSyscalls, rule.syscalls, elemsOf(uint32), alloc
+//@ ensures[C06] rdOK(rule)
+//@ ensures[C06] syscall == "all" ==> isNil(result0) && rule.allSyscalls && len(rule.syscalls) == old(len(rule.syscalls))
+//@ ensures[C06] isNil(result0) && syscall != "all" ==> !rule.allSyscalls && len(rule.syscalls) == old(len(rule.syscalls)) + 1 && lo(rule.syscalls) == old(lo(rule.syscalls))
+//@ ensures[C06] !isNil(result0) ==> len(rule.syscalls) == old(len(rule.syscalls))
+//@ ensures[C06] forall j int :: old(lo(rule.syscalls)) <= j && j < old(hi(rule.syscalls)) ==> at(rule.syscalls, j) == old(at(rule.syscalls, j))
+//@ ensures[C06] isNil(result0) && syscall != "all" && strIsNum(syscall, 10, true) && 0 <= strIval(syscall, 10) && strIval(syscall, 10) < 4294967296 ==> at(rule.syscalls, hi(rule.syscalls) - 1) == strIval(syscall, 10)
+//@ ensures[C06] forall j int :: lo(rule.fields) <= j && j < hi(rule.fields) ==> at(rule.fields, j) == old(at(rule.fields, j)) && at(rule.values, j - lo(rule.fields) + lo(rule.values)) == old(at(rule.values, j - lo(rule.fields) + lo(rule.values))) && at(rule.fieldFlags, j - lo(rule.fields) + lo(rule.fieldFlags)) == old(at(rule.fieldFlags, j - lo(rule.fields) + lo(rule.fieldFlags)))
+
+//@ func rule.addKeys
+//@ requires rdOK(data)
+//@ modifies data.fields, data.values, data.fieldFlags, data.strings, data.arch, elemsOf(field), elemsOf(uint32), elemsOf(operator), elemsOf(string), alloc
+//@ ensures[C06] rdOK(data)
+//@ ensures[C06] data.flags == old(data.flags) && data.action == old(data.action) && data.allSyscalls == old(data.allSyscalls) && data.syscalls == old(data.syscalls)
+//@ ensures[C06] len(keys) == 0 ==> isNil(result0) && len(data.fields) == old(len(data.fields))
+//@ ensures[C06] isNil(result0) && len(keys) > 0 ==> len(data.fields) == old(len(data.fields)) + 1 && at(data.fields, hi(data.fields) - 1) == fieldsTable["key"] && at(data.fieldFlags, hi(data.fieldFlags) - 1) == operatorsTable["="]
+//@ ensures[C06] forall j int :: old(lo(data.fields)) <= j && j < old(hi(data.fields)) ==> at(data.fields, j) == old(at(data.fields, j))
+//
+//@ func rule.addFileWatch
+//@ requires rdOK(data) && rule != nil
+//@ modifies data.flags, data.action, data.allSyscalls, data.fields, data.values, data.fieldFlags, data.strings, data.arch, elemsOf(field), elemsOf(uint32), elemsOf(operator), elemsOf(string), alloc
+//@ ensures[C06] rdOK(data)
+//@ ensures[C06] isNil(result0) ==> data.flags == exitFilter && data.action == alwaysAction && data.allSyscalls
+//@ ensures[C06] isNil(result0) ==> len(data.fields) == old(len(data.fields)) + 2 + (if len(rule.Keys) > 0 then 1 else 0)
